@@ -12,9 +12,9 @@ import (
 
 func init() {
 	register(&Prop{
-		ID:    "C18",
-		Title: "Table lifecycle and metadata stay coherent",
-		Decided: "(R1) CreateTable: the existence test on tables[name] dominates the insertion and its hit edge returns a resource-in-use error; the insertion lies on the success edges of CreatePrimaryIndex, AddGlobalIndexes and AddLocalIndexes (no half-built table is published), stores the table returned by core.NewTable under the request's table name; (R2) Client.tables is read only by comma-ok lookups whose miss edge returns a resource-not-found error (or by iteration), and written only by the constructor, CreateTable and DeleteTable; (R3) NewTable, newIndex and NewClient initialise every map/slice field with a fresh container, so a re-created table shares nothing with its predecessor; (R4) Description reports ItemCount ← len(SortedKeys), the key schema of the table and one entry per index with an exhaustive switch over the index kinds, and both clients carry TableName, ItemCount, KeySchema and both index lists into the SDK description; (R5) DeleteTable deletes exactly the looked-up name after a successful lookup; (R6) no instruction outside package initialisation stores through a package-level variable of the six packages, and no address into a package-level singleton object escapes – separate clients share no mutable state; (R7) every core call in a data method operates on the table returned by the lookup of the request's own TableName; (R8) hygiene that keeps the call graph sound: no unsafe, cgo, go:linkname, reflective call or build-tagged file.",
+		ID:         "C18",
+		Title:      "Table lifecycle and metadata stay coherent",
+		Decided:    "(R1) CreateTable: the existence test on tables[name] dominates the insertion and its hit edge returns a resource-in-use error; the insertion lies on the success edges of CreatePrimaryIndex, AddGlobalIndexes and AddLocalIndexes (no half-built table is published), stores the table returned by core.NewTable under the request's table name; (R2) Client.tables is read only by comma-ok lookups whose miss edge returns a resource-not-found error (or by iteration), and written only by the constructor, CreateTable and DeleteTable; (R3) NewTable, newIndex and NewClient initialise every map/slice field with a fresh container, so a re-created table shares nothing with its predecessor; (R4) Description reports ItemCount ← len(SortedKeys), the key schema of the table and one entry per index with an exhaustive switch over the index kinds, and both clients carry TableName, ItemCount, KeySchema and both index lists into the SDK description; (R5) DeleteTable deletes exactly the looked-up name after a successful lookup; (R6) no instruction outside package initialisation stores through a package-level variable of the six packages, and no address into a package-level singleton object escapes – separate clients share no mutable state; (R7) every core call in a data method operates on the table returned by the lookup of the request's own TableName; (R8) hygiene that keeps the call graph sound: no unsafe, cgo, go:linkname, reflective call or build-tagged file.",
 		NotDecided: "sequencing semantics across arbitrary histories beyond the induction over per-method invariants; billing-mode/throughput validation values.",
 		Rules: []RuleDef{
 			{ID: "R1", Desc: "CreateTable: exists-test dominates insertion; only fully built tables are published (T-DOM)", Run: c18R1},
